@@ -202,6 +202,51 @@ func decoderShape(fn *ssa.Function) (labels []string, arity int, atLeast bool, o
 			}
 		}
 	}
+	if ok {
+		return
+	}
+	// the element count tested by a private helper whose verdict the decoder acts on
+	// (`label, err := elems.expect("EVENT", 3); if err != nil { return err }`): the same reading over
+	// the success paths with the helper's own conditions spliced in
+	var alts [][]an.Cond
+	for _, p := range succ {
+		alts = append(alts, an.SpliceVerdicts(p.Conds())...)
+	}
+	deepSubj := map[string]bool{}
+	for _, cs := range alts {
+		for _, cd := range cs {
+			cd = an.NormCond(cd)
+			if b, isB := cd.V.(*ssa.BinOp); isB {
+				for _, side := range []ssa.Value{b.X, b.Y} {
+					if sp := cd.Path(side); strings.HasPrefix(sp, "len(") {
+						deepSubj[sp] = true
+					}
+				}
+			}
+		}
+	}
+	for sp := range deepSubj {
+		set := an.Empty()
+		for _, cs := range alts {
+			if s, tested := lenFromConds(cs, sp); tested {
+				set = set.Union(s)
+			}
+		}
+		if len(set) != 1 {
+			continue
+		}
+		lo, hi := set[0].Lo, set[0].Hi
+		switch {
+		case lo == hi && lo > 0:
+			if !ok || !atLeast {
+				arity, atLeast, ok = int(lo), false, true
+			}
+		case hi == an.PosInf && lo > 0:
+			if !ok {
+				arity, atLeast, ok = int(lo), true, true
+			}
+		}
+	}
 	return
 }
 
@@ -614,6 +659,12 @@ func runDecBounds(c *core.Ctx) {
 					c.CountPaths(n)
 					if ok && set.Subset(an.Range(minLen, an.PosInf)) {
 						c.OK(nil, fname(c, fn), construct, pos, fmt.Sprintf("%s: reached only with %s ∈ %s", why, f, set))
+						return true
+					}
+					// I7: the length test made by a private helper whose verdict was tested here
+					// (`if _, err := elems.expect("EVENT", 3); err != nil { return err }`)
+					if deep, okd := lenAtDeep(fn, in.Block(), f); okd && deep.Subset(an.Range(minLen, an.PosInf)) {
+						c.OK(nil, fname(c, fn), construct, pos, fmt.Sprintf("%s: reached only with %s ∈ %s (tested by a helper whose verdict dominates the access)", why, f, deep))
 						return true
 					}
 					// I5: FindSubmatch returns nil or exactly groups+1 elements
